@@ -8,6 +8,8 @@
 
 mod alloc;
 mod gen;
+mod model;
+mod model_shrink;
 mod mon;
 mod rng;
 mod worker;
@@ -135,7 +137,7 @@ fn main() {
             // DESIGN.md (256) is far from the stack limit.
             let is_run = args[1] == "run";
             let handle = std::thread::Builder::new()
-                .stack_size(256 << 20)
+                .stack_size(64 << 20)
                 .spawn(move || {
                     let reg = registry();
                     let prop = reg.iter().find(|p| p.id() == prop_id).unwrap();
